@@ -108,6 +108,7 @@ def typed_models(draw, max_nodes=10, cmds=None, with_meta=True, clean=False):
         node = {"name": "N%d" % k, "cmd": cmd, "inputs": inputs, "params": params}
         if with_meta and draw(st.integers(0, 3)) == 0:
             node["meta"] = {"DisplayName": "node %d" % k, "Color": draw(st.sampled_from(["Blue", "dark red", "x"]))}
+            node["meta_pos"] = draw(st.integers(0, 12))
         nodes.append(node)
     order = list(draw(st.permutations(list(range(len(nodes))))))
     return dict(table, nodes=nodes, order=order)
@@ -174,7 +175,9 @@ def node_arguments(model, node, csv_name="input.csv"):
     for k, v in node["params"].items():
         args.append((k, fmt_value(v)))
     if node.get("meta"):
-        args.append(("Metadata", "[" + ", ".join('"%s": "%s"' % kv for kv in node["meta"].items()) + "]"))
+        # Metadata may stand anywhere among the arguments
+        args.insert(node.get("meta_pos", len(args)) % (len(args) + 1),
+                    ("Metadata", "[" + ", ".join('"%s": "%s"' % kv for kv in node["meta"].items()) + "]"))
     return args
 
 
